@@ -1,6 +1,8 @@
 package main
 
 import (
+	"go/types"
+
 	"golang.org/x/tools/go/ssa"
 )
 
@@ -12,5 +14,50 @@ func init() {
 	// Source-retention stripping is outside the C17 claim.
 	reg("github.com/bufbuild/protoplugin/protopluginutil.StripSourceRetentionOptions", func(in *Interp, fn *ssa.Function, args []Value) Value {
 		return Tuple{args[0], Iface{}}
+	})
+
+	// storagearchive.Zip(ctx, readBucket, writer, compressed) error encodes a bucket with archive/zip (crc32, flate,
+	// binary headers) - not the subject of any lemma. It is delegated to verifArchiveZip of the lemma's package, which
+	// records which bucket is handed to which writer (C17-C.out-isolation). A lemma whose package does not define
+	// verifArchiveZip aborts the path here.
+	reg("github.com/bufbuild/buf/private/pkg/storage/storagearchive.Zip", delegateToHarness("verifArchiveZip"))
+
+	// (*bufimageutil.transitiveClosure).exploreCustomOptions(descriptor, referrerFile, imageIndex, opts) error ranges
+	// over the set fields of the descriptor's options message with protobuf reflection. For a descriptor whose Options
+	// pointer is nil the real function visits nothing and returns nil - that is the model (C17-D drives FilterImage with
+	// its default options through bufgen.execPlugins on images without options). A descriptor that has options aborts
+	// the path: custom options need reflection and are outside every claim.
+	reg("(*github.com/bufbuild/buf/private/bufpkg/bufimage/bufimageutil.transitiveClosure).exploreCustomOptions", func(in *Interp, fn *ssa.Function, args []Value) Value {
+		desc, ok := args[1].(Iface)
+		if !ok || desc.t == nil {
+			in.abort("exploreCustomOptions: descriptor is %T", args[1])
+		}
+		p, ok := desc.v.(Ptr)
+		if !ok || p.IsNil() {
+			in.abort("exploreCustomOptions: descriptor value is %T", desc.v)
+		}
+		pt, ok := desc.t.Underlying().(*types.Pointer)
+		if !ok {
+			in.abort("exploreCustomOptions: descriptor type %s", desc.t)
+		}
+		st, ok := pt.Elem().Underlying().(*types.Struct)
+		if !ok {
+			in.abort("exploreCustomOptions: descriptor type %s", desc.t)
+		}
+		a, ok := p.obj.e[p.idx].(*Agg)
+		if !ok || a == nil {
+			in.abort("exploreCustomOptions: descriptor target is %T", p.obj.e[p.idx])
+		}
+		for i := 0; i < st.NumFields(); i++ {
+			if st.Field(i).Name() != "Options" {
+				continue
+			}
+			if o, isPtr := a.e[i].(Ptr); isPtr && o.IsNil() {
+				return Iface{} // no options: nothing to explore
+			}
+			in.abort("exploreCustomOptions: descriptor has options (protobuf reflection is not interpreted)")
+		}
+		in.abort("exploreCustomOptions: descriptor type %s has no Options field", desc.t)
+		return nil
 	})
 }
